@@ -19,6 +19,7 @@ pub enum PreprocessError {
     ConcatMissingRightToken(SourceLocation),
     ConcatFailed(SourceLocation),
     FailedToFindFile(SourceLocation, String, IncludeError),
+    IncludeDepthExceeded(SourceLocation),
     FailedToParseIfCondition(SourceLocation),
     InvalidIfdef(SourceLocation),
     InvalidIfndef(SourceLocation),
@@ -93,6 +94,11 @@ impl CompileError for PreprocessError {
                 *loc,
                 Severity::Error,
             ),
+            PreprocessError::IncludeDepthExceeded(loc) => w.write_message(
+                &|f| write!(f, "#include nested too deeply"),
+                *loc,
+                Severity::Error,
+            ),
             PreprocessError::FailedToParseIfCondition(loc) => w.write_message(
                 &|f| write!(f, "#if condition parser failed"),
                 *loc,
@@ -140,7 +146,13 @@ struct FileLoader<'a> {
     pragma_once_files: HashSet<FileId>,
     source_manager: &'a mut SourceManager,
     include_handler: &'a mut dyn IncludeHandler,
+
+    /// Number of #include commands we are currently inside
+    include_depth: u32,
 }
+
+/// Limit for nested #include commands - a file that includes itself without a guard would otherwise never finish
+const MAX_INCLUDE_DEPTH: u32 = 200;
 
 /// Loaded file that will be processed
 struct InputFile {
@@ -158,6 +170,7 @@ impl<'a> FileLoader<'a> {
             pragma_once_files: HashSet::new(),
             source_manager,
             include_handler,
+            include_depth: 0,
         }
     }
 
@@ -1092,11 +1105,24 @@ fn preprocess_command(
                 _ => return Err(PreprocessError::InvalidInclude(command_location)),
             };
 
+            // Stop runaway recursive includes before they exhaust the stack
+            if file_loader.include_depth >= MAX_INCLUDE_DEPTH {
+                return Err(PreprocessError::IncludeDepthExceeded(command_location));
+            }
+
             // Include the file
             match file_loader.load(&file_name, Some(file_id)) {
                 Ok(file) => {
-                    preprocess_included_file(buffer, file_loader, file, macros, condition_chain)?;
-                    Ok(())
+                    file_loader.include_depth += 1;
+                    let result = preprocess_included_file(
+                        buffer,
+                        file_loader,
+                        file,
+                        macros,
+                        condition_chain,
+                    );
+                    file_loader.include_depth -= 1;
+                    result
                 }
                 Err(err) => Err(PreprocessError::FailedToFindFile(
                     command_location,
